@@ -126,6 +126,7 @@ fn steer_sched(which: u8) -> String {
 pub fn run_case(ctx: &Ctx, idx: u64) -> Vec<CaseOut> {
     let mut r = ctx.rng(idx);
     let case = make_case(ctx, idx, &mut r);
+    let tiny_ctx = ctx.is("miri");
     let o = fast_opts(case.dict);
     let data = mt::stamped_data(&mut r, case.len, case.unit.max(case.dict as u64) as usize, case.compressible);
     let sizes: Vec<usize> = if r.chance(1, 2) {
@@ -279,6 +280,19 @@ pub fn run_case(ctx: &Ctx, idx: u64) -> Vec<CaseOut> {
             } else {
                 Container::LzipMt { member: case.unit.max(1), workers: case.workers }
             };
+            let mut o = o.clone();
+            let mut data = data;
+            if case.preset && matches!(case.kind, Kind::Write2) && !tiny_ctx {
+                // a preset dictionary in the options and data that repeats its material in every unit
+                let pd = gen::gen_data(&mut r, gen::Family::Text, 3000);
+                let step = case.unit.max(case.dict as u64) as usize;
+                let mut i = 0;
+                while i + pd.len() + 8 <= data.len() {
+                    data[i + 8..i + 8 + pd.len()].copy_from_slice(&pd);
+                    i += step;
+                }
+                o.preset_dict = Some(pd);
+            }
             let spec = Spec { c, o: o.clone() };
             let sched = if case.sched_steer > 0 { steer_sched(case.sched_steer) } else { mt::random_sched(&mut r) };
             let quiet = mt::wait_quiet();
